@@ -55,15 +55,18 @@ def _run(cmd: list[str], cwd: str | None = None) -> None:
         )
 
 
-def _cc_ext(src: str, out: str, opt: str = "-O1") -> None:
+def _cc_ext(src: str, out: str, opt: str = "-O1", extra: list[str] | None = None) -> None:
     inc = sysconfig.get_paths()["include"]
     _run(
         [
             "gcc", opt, "-g", "-fPIC", "-shared", "-fno-strict-overflow",
             "-Wno-unused-function", "-Wno-unreachable-code",
-            "-I", inc, src, "-o", out,
+            "-I", inc, *(extra or []), src, "-o", out,
         ]
     )
+
+
+GILSHIM = os.path.join(VERIF, "sim", "gilshim.h")
 
 
 def source_files(repo: str = REPO) -> list[str]:
@@ -82,8 +85,8 @@ def ensure_stage(repo: str = REPO) -> str:
         raise StageError("no yarl sources under %s" % repo)
     import Cython  # noqa
 
-    extra = "py%s cy%s v3" % (sys.version, Cython.__version__)
-    key = _hash_files(files, extra)
+    extra = "py%s cy%s v4" % (sys.version, Cython.__version__)
+    key = _hash_files(files + [GILSHIM], extra)
     dest = os.path.join(BUILD, "stage-" + key)
     marker = os.path.join(dest, ".ok")
     if os.path.exists(marker):
@@ -114,7 +117,7 @@ def ensure_stage(repo: str = REPO) -> str:
             cfile = os.path.join(pkg, pyx[:-4] + ".c")
             _run([PY, "-m", "cython", "-3", "-o", cfile, os.path.join(pkg, pyx)])
             so = os.path.join(pkg, pyx[:-4] + sysconfig.get_config_var("EXT_SUFFIX"))
-            _cc_ext(cfile, so)
+            _cc_ext(cfile, so, extra=["-include", GILSHIM])
         with open(os.path.join(tmp, ".ok"), "w") as fh:
             fh.write(key)
         shutil.rmtree(dest, ignore_errors=True)
